@@ -2128,3 +2128,299 @@ Proof.
   do 3 eexists. repeat apply conj.
   all: try (lazy; reflexivity).
 Qed.
+
+(* ===================================================================================== *)
+(* update_body, then re-serialise, then parse                                             *)
+(* ---- header dicts of parser states: canonical keys, ok entries ---- *)
+Definition entry_ok (e : bytes * (bytes * bytes)) : bool :=
+  bytes_eqb (fst e) (lower (fst (snd e))) && ok_header (snd e).
+Definition hd_ok (d : hdict) : Prop := forallb entry_ok d = true /\ dict_wf d.
+
+Lemma hd_ok_set d k v : hd_ok d -> ok_header (k, v) = true -> hd_ok (dict_set (lower k) (k, v) d).
+Proof.
+  intros [H1 H2] Ho. split; [|now apply dict_wf_set].
+  clear H2. induction d as [|[k0 e0] t IH]; cbn [dict_set forallb].
+  - unfold entry_ok. cbn [fst snd]. now rewrite bytes_eqb_refl, Ho.
+  - cbn [forallb] in H1. apply andb_true_iff in H1 as [Hk Ht].
+    destruct (bytes_eqb (lower k) k0); cbn [forallb].
+    + rewrite Ht, andb_true_r. unfold entry_ok. cbn [fst snd]. now rewrite bytes_eqb_refl, Ho.
+    + now rewrite Hk, IH.
+Qed.
+
+Lemma hd_ok_del d k : hd_ok d -> hd_ok (dict_del k d).
+Proof.
+  intros [H1 H2]. split; [|now apply dict_wf_del].
+  clear H2. induction d as [|[k0 e0] t IH]; [reflexivity|]. cbn [dict_del].
+  cbn [forallb] in H1. apply andb_true_iff in H1 as [Hk Ht].
+  destruct (bytes_eqb k k0); [exact Ht|]. cbn [forallb]. now rewrite Hk, IH.
+Qed.
+
+Definition hdo_ok (h : option hdict) : Prop := match h with Some d => hd_ok d | None => True end.
+
+Lemma hdo_ok_add p k v : hdo_ok (headers p) -> ok_header (k, v) = true -> hdo_ok (headers (add_header p k v)).
+Proof.
+  unfold add_header, add_header_d. cbn [headers set_headers hdo_ok]. intros H Ho.
+  destruct (headers p) as [d|]; [now apply hd_ok_set|].
+  apply (hd_ok_set [] k v); [split; [reflexivity|apply dict_wf_nil]|exact Ho].
+Qed.
+
+Lemma hdo_ok_del p k : hdo_ok (headers p) -> hdo_ok (headers (del_header p k)).
+Proof.
+  unfold del_header. destruct (headers p) as [[|e t]|] eqn:E; intros H; try (rewrite E; exact H).
+  destruct (dict_has (lower k) (e :: t)); [|rewrite E; exact H].
+  cbn [headers set_headers hdo_ok]. now apply hd_ok_del.
+Qed.
+
+(* the boolean view used by rebuildable_* *)
+Lemma unlift_props d : hd_ok d -> d <> [] ->
+  hdict_canonical (Some d) = true /\ forallb ok_header (unlift (Some d)) = true /\
+  nodup_ci (map fst (unlift (Some d))) = true.
+Proof.
+  intros [H1 H2] Hne.
+  assert (Hc : forallb (fun e => bytes_eqb (fst e) (lower (fst (snd e)))) d = true).
+  { apply forallb_forall. intros e He. pose proof (forallb_In _ _ _ H1 He) as X. unfold entry_ok in X.
+    now apply andb_true_iff in X as [? _]. }
+  split; [destruct d; [congruence|exact Hc]|]. split.
+  - cbn [unlift]. apply forallb_forall. intros kv Hi. apply in_map_iff in Hi as (e & <- & He).
+    pose proof (forallb_In _ _ _ H1 He) as X. unfold entry_ok in X. apply andb_true_iff in X as [_ X].
+    destruct e as [k [o v]]. exact X.
+  - apply nodup_ci_NoDup. cbn [unlift]. unfold lkeys. rewrite map_map. cbn [fst].
+    unfold dict_wf, dict_keys in H2.
+    rewrite (map_ext_in _ fst); [exact H2|]. intros e He.
+    pose proof (forallb_In _ _ _ Hc He) as X. apply bytes_eqb_eq in X. now rewrite X.
+Qed.
+
+Lemma props_unlift h : hdict_canonical h = true -> forallb ok_header (unlift h) = true ->
+  nodup_ci (map fst (unlift h)) = true -> hdo_ok h.
+Proof.
+  destruct h as [d|]; [|intros; exact I]. cbn [hdo_ok]. intros Hc Ho Hn.
+  assert (Hc' : forallb (fun e => bytes_eqb (fst e) (lower (fst (snd e)))) d = true).
+  { cbn [hdict_canonical] in Hc. destruct d; [discriminate|exact Hc]. }
+  split.
+  - apply forallb_forall. intros e He. unfold entry_ok. rewrite (forallb_In _ _ _ Hc' He). cbn [andb].
+    cbn [unlift] in Ho. apply (forallb_In _ _ _ Ho). apply in_map_iff. exists e. destruct e as [k [o v]]. now split.
+  - apply nodup_ci_NoDup in Hn. cbn [unlift] in Hn. unfold lkeys in Hn. rewrite map_map in Hn. cbn [fst] in Hn.
+    unfold dict_wf, dict_keys. rewrite (map_ext_in fst (fun e => lower (fst (snd e)))); [exact Hn|].
+    intros e He. pose proof (forallb_In _ _ _ Hc' He) as X. now apply bytes_eqb_eq in X.
+Qed.
+
+(* header lookup through the unlifted map *)
+Lemma get_ci_unlift d ln : forallb (fun e => bytes_eqb (fst e) (lower (fst (snd e)))) d = true ->
+  get_ci ln (unlift (Some d)) = match dict_get ln d with Some (_, v) => Some v | None => None end.
+Proof.
+  cbn [unlift]. induction d as [|[k [o v]] t IH]; intros H; [reflexivity|].
+  cbn [forallb fst snd] in H. apply andb_true_iff in H as [Hk Ht]. apply bytes_eqb_eq in Hk. subst k.
+  cbn [map fst snd]. rewrite get_ci_cons. cbn [dict_get].
+  destruct (bytes_eqb_spec (lower o) ln), (bytes_eqb_spec ln (lower o)); try congruence; try reflexivity.
+  now apply IH.
+Qed.
+
+Lemma get_ci_unlift_p p ln : hdict_canonical (headers p) = true ->
+  get_ci ln (unlift (headers p)) =
+  match (match headers p with Some d => dict_get ln d | None => None end) with Some (_, v) => Some v | None => None end.
+Proof.
+  destruct (headers p) as [d|]; [|reflexivity]. intros H. apply get_ci_unlift.
+  cbn [hdict_canonical] in H. destruct d; [discriminate|exact H].
+Qed.
+
+(* ---- update_body leaves everything but headers and body alone ---- *)
+Lemma del_header_fields p k :
+  ty (del_header p k) = ty p /\ method (del_header p k) = method p /\ version (del_header p k) = version p /\
+  path (del_header p k) = path p /\ code (del_header p k) = code p /\ reason (del_header p k) = reason p /\
+  body (del_header p k) = body p.
+Proof.
+  unfold del_header. destruct (headers p) as [[|e t]|]; try (repeat split; reflexivity).
+  destruct (dict_has (lower k) (e :: t)); repeat split; reflexivity.
+Qed.
+
+Lemma update_body_fields gz p data ct p1 : update_body gz p data ct = Ok p1 ->
+  ty p1 = ty p /\ method p1 = method p /\ version p1 = version p /\ path p1 = path p /\
+  code p1 = code p /\ reason p1 = reason p.
+Proof.
+  unfold update_body. rewrite has_header_hget, header_hget.
+  destruct (hget p L_CONTENT_ENCODING) as [[o v]|]; cbn [bind].
+  - destruct (bytes_eqb v V_GZIP); cbn [bind]; intros H; inversion H; subst; clear H.
+    + destruct (is_chunked_encoded p).
+      * destruct (del_header_fields p CONTENT_LENGTH) as (A & B & C & D & E & F & _). repeat split; assumption.
+      * repeat split; reflexivity.
+    + destruct (del_header_fields p L_CONTENT_ENCODING) as (A & B & C & D & E & F & _).
+      rewrite chunked_del. destruct (is_chunked_encoded p).
+      * destruct (del_header_fields (del_header p L_CONTENT_ENCODING) CONTENT_LENGTH) as (A' & B' & C' & D' & E' & F' & _).
+        repeat split; cbn [add_header set_body set_headers ty method version path code reason]; congruence.
+      * repeat split; cbn [add_header set_body set_headers ty method version path code reason]; assumption.
+  - intros H; inversion H; subst; clear H. destruct (is_chunked_encoded p).
+    + destruct (del_header_fields p CONTENT_LENGTH) as (A & B & C & D & E & F & _). repeat split; assumption.
+    + repeat split; reflexivity.
+Qed.
+
+Lemma dict_set_ne {V} k (v : V) d : dict_set k v d <> [].
+Proof. destruct d as [|[k0 v0] t]; cbn [dict_set]; [discriminate|]. destruct (bytes_eqb k k0); discriminate. Qed.
+
+Lemma update_body_hdo gz p data ct p1 : hdo_ok (headers p) -> ok_value ct = true ->
+  update_body gz p data ct = Ok p1 ->
+  hdo_ok (headers p1) /\ exists d, headers p1 = Some d /\ d <> [].
+Proof.
+  intros H Hct. unfold update_body. rewrite has_header_hget, header_hget.
+  assert (Hcl : forall n, ok_header (H_CONTENT_LENGTH, bytes_of_N n) = true).
+  { intros n. unfold ok_header. cbn [fst snd]. unfold bytes_of_N. now rewrite dec_ok_value. }
+  assert (Hty : ok_header (H_CONTENT_TYPE, ct) = true) by (unfold ok_header; cbn [fst snd]; now rewrite Hct).
+  assert (Hne : forall q k v, exists d, headers (add_header q k v) = Some d /\ d <> []).
+  { intros q k v. unfold add_header, add_header_d. cbn [headers set_headers]. eexists. split; [reflexivity|].
+    apply dict_set_ne. }
+  destruct (hget p L_CONTENT_ENCODING) as [[o v]|]; cbn [bind].
+  - destruct (bytes_eqb v V_GZIP); cbn [bind]; intros E; inversion E; subst; clear E; (split; [|apply Hne]).
+    + apply hdo_ok_add; [|exact Hty]. cbn [set_body headers].
+      destruct (is_chunked_encoded p); [now apply hdo_ok_del|now apply hdo_ok_add].
+    + apply hdo_ok_add; [|exact Hty]. cbn [set_body headers].
+      destruct (is_chunked_encoded (del_header p L_CONTENT_ENCODING));
+        [apply hdo_ok_del; now apply hdo_ok_del|apply hdo_ok_add; [now apply hdo_ok_del|apply Hcl]].
+  - intros E; inversion E; subst; clear E. split; [|apply Hne].
+    apply hdo_ok_add; [|exact Hty]. cbn [set_body headers].
+    destruct (is_chunked_encoded p); [now apply hdo_ok_del|now apply hdo_ok_add].
+Qed.
+
+Lemma update_body_te gz p data ct p1 : update_body gz p data ct = Ok p1 ->
+  hget p1 TRANSFER_ENCODING = hget p TRANSFER_ENCODING.
+Proof.
+  unfold update_body. rewrite has_header_hget, header_hget.
+  destruct (hget p L_CONTENT_ENCODING) as [[o v]|]; cbn [bind].
+  - destruct (bytes_eqb v V_GZIP); cbn [bind]; intros E; inversion E; subst; clear E;
+      rewrite hget_add_other by discriminate; rewrite hget_set_body.
+    + destruct (is_chunked_encoded p); [now rewrite hget_del_other by discriminate|now rewrite hget_add_other by discriminate].
+    + destruct (is_chunked_encoded (del_header p L_CONTENT_ENCODING));
+        [rewrite hget_del_other by discriminate|rewrite hget_add_other by discriminate];
+        now rewrite hget_del_other by discriminate.
+  - intros E; inversion E; subst; clear E. rewrite hget_add_other by discriminate. rewrite hget_set_body.
+    destruct (is_chunked_encoded p); [now rewrite hget_del_other by discriminate|now rewrite hget_add_other by discriminate].
+Qed.
+
+Lemma get_ci_hget p key : hdict_canonical (headers p) = true -> lower key = key ->
+  get_ci key (unlift (headers p)) = match hget p key with Some (_, v) => Some v | None => None end.
+Proof. intros H E. rewrite get_ci_unlift_p by exact H. unfold hget. now rewrite E. Qed.
+
+Lemma dec_zero : dec_of_N 0 = [48].
+Proof. reflexivity. Qed.
+
+(* update_body keeps a state inside the domain of the rebuild theorems *)
+Lemma update_body_framing strict gz gunz p data ct p1 : (forall x, gunz (gz x) = x) ->
+  hdict_canonical (headers p) = true -> hdo_ok (headers p) -> ok_value ct = true ->
+  framing_consistent_b strict p (unlift (headers p)) = true ->
+  len_ok (stored_body gz p data) = true ->
+  update_body gz p data ct = Ok p1 ->
+  hdict_canonical (headers p1) = true /\ forallb ok_header (unlift (headers p1)) = true /\
+  nodup_ci (map fst (unlift (headers p1))) = true /\
+  framing_consistent_b strict p1 (unlift (headers p1)) = true /\ body p1 = Some (stored_body gz p data).
+Proof.
+  intros Hg Hc Hd Hct Hf Hl E.
+  destruct (update_body_hdo gz p data ct p1 Hd Hct E) as (Hd1 & d1 & Eh1 & Hne1).
+  assert (W : headers_wf p) by (unfold headers_wf; destruct (headers p); [apply Hd|exact I]).
+  destruct (update_body_consistent gz gunz Hg p data ct p1 W E) as (B1 & _ & _ & _ & B5 & B6 & _).
+  rewrite Eh1 in Hd1. cbn [hdo_ok] in Hd1.
+  destruct (unlift_props d1 Hd1 Hne1) as (U1 & U2 & U3). rewrite <- Eh1 in U1, U2, U3.
+  split; [exact U1|]. split; [exact U2|]. split; [exact U3|]. split; [|exact B1].
+  unfold framing_consistent_b in *.
+  rewrite (get_ci_hget p1 TRANSFER_ENCODING U1 eq_refl), (update_body_te gz p data ct p1 E),
+          <- (get_ci_hget p TRANSFER_ENCODING Hc eq_refl).
+  rewrite B5, B1.
+  destruct (get_ci TRANSFER_ENCODING (unlift (headers p))) as [te|].
+  - apply andb_true_iff in Hf as [Hf _]. apply andb_true_iff in Hf as [Hf _]. apply andb_true_iff in Hf as [Ht Hk].
+    rewrite Ht, Hk. cbn [andb]. rewrite Hk in B6. rewrite andb_true_r.
+    rewrite has_key_ci_get, (get_ci_hget p1 CONTENT_LENGTH U1 eq_refl).
+    rewrite has_header_hget in B6. destruct (hget p1 CONTENT_LENGTH) as [[o v]|]; [discriminate|reflexivity].
+  - apply andb_true_iff in Hf as [Hk _]. rewrite Hk. cbn [andb]. apply negb_true_iff in Hk. rewrite Hk in B6.
+    rewrite (get_ci_hget p1 CONTENT_LENGTH U1 eq_refl). rewrite header_hget in B6.
+    destruct (hget p1 CONTENT_LENGTH) as [[o v]|]; [|discriminate]. inversion B6; subst v. clear B6.
+    unfold bytes_of_N. cbn [or_empty].
+    destruct (truthy (Some (stored_body gz p data))) eqn:T.
+    + now rewrite bytes_eqb_refl, Hl.
+    + assert (Es : stored_body gz p data = []) by (destruct (stored_body gz p data); [reflexivity|discriminate]).
+      rewrite Es. change (len []) with 0. rewrite dec_zero. destruct strict; reflexivity.
+Qed.
+
+Lemma rebuildable_req_hdo p : rebuildable_req p = true ->
+  hdict_canonical (headers p) = true /\ hdo_ok (headers p) /\ framing_consistent_b false p (unlift (headers p)) = true.
+Proof.
+  unfold rebuildable_req. cbv zeta. intros H. repeat (apply andb_true_iff in H as [H ?]).
+  repeat split; try assumption. now apply props_unlift.
+Qed.
+Lemma rebuildable_resp_hdo p : rebuildable_resp p = true ->
+  hdict_canonical (headers p) = true /\ hdo_ok (headers p) /\ framing_consistent_b true p (unlift (headers p)) = true.
+Proof.
+  unfold rebuildable_resp. cbv zeta. intros H. repeat (apply andb_true_iff in H as [H ?]).
+  repeat split; try assumption. now apply props_unlift.
+Qed.
+
+Lemma update_body_rebuildable_req gz gunz p data ct p1 : (forall x, gunz (gz x) = x) ->
+  rebuildable_req p = true -> ok_value ct = true -> len_ok (stored_body gz p data) = true ->
+  update_body gz p data ct = Ok p1 -> rebuildable_req p1 = true /\ body p1 = Some (stored_body gz p data).
+Proof.
+  intros Hg R Hct Hl E. destruct (rebuildable_req_hdo p R) as (Hc & Hd & Hf).
+  destruct (update_body_framing false gz gunz p data ct p1 Hg Hc Hd Hct Hf Hl E) as (U1 & U2 & U3 & U4 & U5).
+  destruct (update_body_fields gz p data ct p1 E) as (F1 & F2 & F3 & F4 & F5 & F6).
+  split; [|exact U5].
+  unfold rebuildable_req in *. cbv zeta in *. unfold path_ok_b in *. rewrite F1, F2, F3, F4, U1, U2, U3, U4.
+  repeat (apply andb_true_iff in R as [R ?]).
+  repeat match goal with X : _ = true |- _ => rewrite X end. reflexivity.
+Qed.
+
+Lemma update_body_rebuildable_resp gz gunz p data ct p1 : (forall x, gunz (gz x) = x) ->
+  rebuildable_resp p = true -> ok_value ct = true -> len_ok (stored_body gz p data) = true ->
+  update_body gz p data ct = Ok p1 -> rebuildable_resp p1 = true /\ body p1 = Some (stored_body gz p data).
+Proof.
+  intros Hg R Hct Hl E. destruct (rebuildable_resp_hdo p R) as (Hc & Hd & Hf).
+  destruct (update_body_framing true gz gunz p data ct p1 Hg Hc Hd Hct Hf Hl E) as (U1 & U2 & U3 & U4 & U5).
+  destruct (update_body_fields gz p data ct p1 E) as (F1 & F2 & F3 & F4 & F5 & F6).
+  split; [|exact U5].
+  unfold rebuildable_resp in *. cbv zeta in *. rewrite F1, F3, F5, F6, U1, U2, U3, U4.
+  repeat (apply andb_true_iff in R as [R ?]).
+  repeat match goal with X : _ = true |- _ => rewrite X end. reflexivity.
+Qed.
+
+(* update_body, then re-serialise, then parse: the new (possibly gzip-compressed) body comes back *)
+Theorem update_body_rebuild_request gz gunz ua p data ct : (forall x, gunz (gz x) = x) ->
+  rebuildable_req p = true -> ok_value ct = true -> len_ok (stored_body gz p data) = true ->
+  exists p1 raw p',
+    update_body gz p data ct = Ok p1 /\ build ua p1 [] false None = Ok raw /\
+    parse (new_parser REQUEST_PARSER) raw = Ok p' /\ state p' = COMPLETE /\ buffer p' = None /\
+    method p' = method p /\ version p' = version p /\
+    bodyb p' = stored_body gz p data /\
+    (says_gzip p = true -> gunz (bodyb p') = data) /\ (says_gzip p = false -> bodyb p' = data) /\
+    header p' H_CONTENT_TYPE = Ok ct /\ is_chunked_encoded p' = is_chunked_encoded p.
+Proof.
+  intros Hg R Hct Hl. destruct (update_body_ok gz p data ct) as [p1 E].
+  destruct (update_body_rebuildable_req gz gunz p data ct p1 Hg R Hct Hl E) as [R1 B1].
+  destruct (rebuild_stable_request_bool ua p1 R1) as (raw & p' & S1 & S2 & S3 & S4 & S5 & S6 & _ & _ & S9 & S10 & S11).
+  destruct (update_body_fields gz p data ct p1 E) as (F1 & F2 & F3 & _).
+  destruct (rebuildable_req_hdo p R) as (_ & Hd & _).
+  assert (W : headers_wf p) by (unfold headers_wf; destruct (headers p); [apply Hd|exact I]).
+  destruct (update_body_consistent gz gunz Hg p data ct p1 W E) as (_ & C2 & _ & C4 & C5 & _).
+  assert (Eb : bodyb p' = stored_body gz p data) by (rewrite S10; unfold bodyb; now rewrite B1).
+  exists p1, raw, p'. repeat apply conj; try assumption; try congruence.
+  - rewrite Eb. exact C2.
+  - intros G. rewrite Eb. unfold stored_body. now rewrite G.
+  - unfold header in *. now rewrite S9.
+Qed.
+
+Theorem update_body_rebuild_response gz gunz p data ct : (forall x, gunz (gz x) = x) ->
+  rebuildable_resp p = true -> ok_value ct = true -> len_ok (stored_body gz p data) = true ->
+  exists p1 raw p',
+    update_body gz p data ct = Ok p1 /\ build_response p1 = Ok raw /\
+    parse (new_parser RESPONSE_PARSER) raw = Ok p' /\ state p' = COMPLETE /\ buffer p' = None /\
+    version p' = version p /\ code p' = code p /\
+    bodyb p' = stored_body gz p data /\
+    (says_gzip p = true -> gunz (bodyb p') = data) /\ (says_gzip p = false -> bodyb p' = data) /\
+    header p' H_CONTENT_TYPE = Ok ct /\ is_chunked_encoded p' = is_chunked_encoded p.
+Proof.
+  intros Hg R Hct Hl. destruct (update_body_ok gz p data ct) as [p1 E].
+  destruct (update_body_rebuildable_resp gz gunz p data ct p1 Hg R Hct Hl E) as [R1 B1].
+  destruct (rebuild_stable_response_bool p1 R1) as (raw & p' & S1 & S2 & S3 & S4 & S5 & S6 & _ & S8 & S9 & S10).
+  destruct (update_body_fields gz p data ct p1 E) as (F1 & F2 & F3 & _ & F5 & _).
+  destruct (rebuildable_resp_hdo p R) as (_ & Hd & _).
+  assert (W : headers_wf p) by (unfold headers_wf; destruct (headers p); [apply Hd|exact I]).
+  destruct (update_body_consistent gz gunz Hg p data ct p1 W E) as (_ & C2 & _ & C4 & C5 & _).
+  assert (Eb : bodyb p' = stored_body gz p data) by (rewrite S9; unfold bodyb; now rewrite B1).
+  exists p1, raw, p'. repeat apply conj; try assumption; try congruence.
+  - rewrite Eb. exact C2.
+  - intros G. rewrite Eb. unfold stored_body. now rewrite G.
+  - unfold header in *. now rewrite S8.
+Qed.
